@@ -349,6 +349,8 @@ class C04(Monitor):
                     continue
                 key = (r.node, sid)
                 for (s0, x0, who) in self.by_server.get(key, []):
+                    if who == r.id_number:
+                        continue  # stretches of one customer (an interrupted blocked customer keeps its original start)
                     self.ck(AnyOf(LE(x0, r.service_start_date), LE(r.exit_date, s0)), "server_intervals_overlap",
                             lambda: "server %s of node %s: customer %s [%s, %s] overlaps customer %s [%s, %s]" % (sid, r.node, who, s0, x0, r.id_number, r.service_start_date, r.exit_date))
                     self.seen("c04_interval_pairs")
@@ -359,6 +361,8 @@ class C04(Monitor):
             if finite(n):
                 for i in served(n):
                     for (s0, x0, who) in self.by_server.get((n.id_number, i.server.id_number), []):
+                        if who == i.id_number:
+                            continue
                         if isnum(i.service_start_date):
                             self.ck(LE(x0, i.service_start_date), "server_interval_overlaps_current",
                                     lambda: "server %s of node %s: closed interval of %s [%s,%s] overlaps current customer %s from %s" % (i.server.id_number, n.id_number, who, s0, x0, i.id_number, i.service_start_date))
